@@ -139,8 +139,10 @@ class Executor:
         Returns:
             List[List[Cell]].
         """
-        if type(sheet) is str:
-            sheet = self._titles[sheet]
+        # the sheet is resolved like the sheet of a cell: an unknown title or number is the cell exception, for every query call alike
+        probe = Cell(title=sheet, column=0, row=0)
+        handle_cell(probe, self._titles)
+        sheet = probe.title
 
         cells = []
         sheet_size = self._sheets_size[sheet]
